@@ -13,7 +13,9 @@ import chordlabels as cl
 from core import Case
 
 PID = "C11"
-LEAN_MODULES = ["MirProofs.Props.C11", "MirProofs.Props.C11_Labels"]
+LEAN_MODULES = ["MirProofs.Props.C11", "MirProofs.Props.C11_Labels", "MirProofs.Props.C11_GenFns"]
+# C11_GenFns: chord.rotate_bitmap_to_root REGENERATED from the source (harness/translate/scalars_chordfn.py) = ChordCompare.rotate
+TRANSLATOR_PARTS = ["chordfns_rotate"]
 RULE = ("label pairs from a pool of ~5200 grammar-valid encodable labels (every shorthand x 5 roots x "
         "{no bass, 11 bass degrees} x {no / added / omitted degree} + N + X + respellings); the estimate shares "
         "the reference root in ~half of the pairs; non-trivial = reference is not X and roots agree")
@@ -91,8 +93,30 @@ def suite_reachable(rng, tier, shard, nshards):
                    nontrivial=lab not in ("N", "X"))
 
 
+def suite_gen_rotate(rng, tier, shard, nshards):
+    """driver op `gen.chordfn rotate_bitmap_to_root`: the definition REGENERATED from the source (lean/MirGen/ChordFns.lean)
+    against the real function: every QUALITIES row x every root, random 0/1 and signed rows, other lengths (a nonzero
+    entry of a row shorter than 12 can raise IndexError), roots far outside 0..11"""
+    def case(bm, root, tag):
+        return Case("gen.chordfn", ["rotate_bitmap_to_root", bm, root],
+                    lambda bm=bm, root=root: mir_eval.chord.rotate_bitmap_to_root(np.array(bm, dtype=np.int64), root),
+                    tag="gen rotate_bitmap_to_root:" + tag, info={"bitmap": bm, "root": root},
+                    nontrivial=any(bm))
+    rows = [list(v) for v in mir_eval.chord.QUALITIES.values()]
+    for i, bm in enumerate(rows):
+        if i % nshards == shard:
+            for root in range(-1, 12):
+                yield case(bm, root, "qualities")
+    for _ in range((4000 if tier == "thorough" else 400) // nshards):
+        k = rng.randrange(5)
+        ln = 12 if k < 3 else rng.choice([0, 1, 5, 11, 13, 24])
+        bm = [rng.randint(0, 1) if k == 0 else rng.choice([0, 0, 1, 1, -1, 2]) for _ in range(ln)]
+        root = rng.randint(0, 11) if k < 2 else rng.randint(-30, 30)
+        yield case(bm, root, "rows" if ln == 12 else "other-lengths")
+
+
 SUITES = {"reachable": suite_reachable, "rules_random": suite_rules_random, "rules_exhaustive": suite_rules_exhaustive,
-          "rules_single": suite_rules_single}
+          "rules_single": suite_rules_single, "gen_chordfn.rotate": suite_gen_rotate}
 
 
 # ----------------------------------------------------------------------------------------------------
@@ -229,8 +253,35 @@ def gen_majmin_inv(rng, tier, shard, nshards, boost):
     return _gen_pairs(rng, tier, shard, nshards, boost, 8000, 100000, False)
 
 
-CHECKERS = {"chord.lattice": check_lattice, "chord.vocab": check_vocab, "chord.majmin_inv": check_majmin_inv}
-ORACLES = {"chord.lattice": gen_lattice, "chord.vocab": gen_vocab, "chord.majmin_inv": gen_majmin_inv}
+def check_rotate(inp):
+    """rotate_bitmap_to_root (through which mirex sees absolute pitch classes) is the documented circular shift: pitch
+    class (i + root) mod 12 is active iff relative semitone i is (docstring: G:maj, root 7 -> G, B, D)"""
+    bm, root = list(inp["bitmap"]), int(inp["root"])
+    try:
+        got = [int(x) for x in np.asarray(mir_eval.chord.rotate_bitmap_to_root(np.array(bm, dtype=np.int64), root)).tolist()]
+    except Exception as e:  # noqa: BLE001 - this is the observation
+        return "rotate_bitmap_to_root(%r, %r) raised %s" % (bm, root, type(e).__name__)
+    want = [0] * 12
+    for i, v in enumerate(bm):
+        if v:
+            want[(i + root) % 12] = 1
+    if got != want:
+        return "rotate_bitmap_to_root(%r, %r) = %r, the circular shift is %r" % (bm, root, got, want)
+    return None
+
+
+def gen_rotate(rng, tier, shard, nshards, boost):
+    yield {"bitmap": [1, 0, 0, 0, 1, 0, 0, 1, 0, 0, 0, 0], "root": 7}
+    rows = [list(v) for v in mir_eval.chord.QUALITIES.values()]
+    for _ in range((300 if tier == "thorough" else 60) * boost):
+        bm = rng.choice(rows) if rng.random() < 0.5 else [rng.randint(0, 1) for _ in range(12)]
+        yield {"bitmap": bm, "root": rng.randint(0, 11)}
+
+
+CHECKERS = {"chord.lattice": check_lattice, "chord.vocab": check_vocab, "chord.majmin_inv": check_majmin_inv,
+            "chord.rotate_bitmap_to_root": check_rotate}
+ORACLES = {"chord.lattice": gen_lattice, "chord.vocab": gen_vocab, "chord.majmin_inv": gen_majmin_inv,
+           "chord.rotate_bitmap_to_root": gen_rotate}
 
 
 def _diff_pair_index(d):
@@ -243,6 +294,8 @@ def _diff_pair_index(d):
 def classify(suite, d):
     """a disagreeing correspondence case -> the property's own checkers on the disagreeing pair"""
     i = d["info"]
+    if suite == "gen_chordfn.rotate":
+        return ("chord.rotate_bitmap_to_root", {"bitmap": i["bitmap"], "root": i["root"]}) if len(i["bitmap"]) == 12 else None
     if suite == "reachable":
         return "chord.lattice", {"ref": i["label"], "est": i["label"], "est2": "N"}
     refs, ests = i["ref"], i["est"]
